@@ -18,14 +18,22 @@ from props.filt_common import RF, fracdict, recursion, syms, pclean
 
 ID = "C05"
 COEFFS = [0, 1, -1, 2, -2, 3, -3, 1, -1, 4, 5]
+# Dyadic on purpose: Fraction coefficients reach the generated filter source
+# through str(), where "3/2" is evaluated as the float 1.5 - exact for dyadic
+# values (Lin treats floats as the rationals they are), so these cases stay in
+# the exactly-compared class.
+FRACS = [Fraction(1, 2), Fraction(3, 2), Fraction(-1, 4), Fraction(3, 4),
+         Fraction(-5, 2), Fraction(3, 1), Fraction(-1, 2)]
 
 
-def rfilt(rng, share_den=None):
+def rfilt(rng, share_den=None, frac=False):
   nb = rng.randint(0, 3)
   b = [rng.choice(COEFFS) for _ in range(nb + 1)]
   if all(v == 0 for v in b):
     b[rng.randrange(len(b))] = rng.choice([1, -1, 2])
   if share_den is not None:
+    if frac and rng.random() < 0.5:
+      b = [v * rng.choice(FRACS) if v and rng.random() < 0.6 else v for v in b]
     return (b, list(share_den))
   if rng.random() < 0.35:
     a = [rng.choice([1, -1, 2, 1])]
@@ -34,6 +42,14 @@ def rfilt(rng, share_den=None):
                                            for _ in range(rng.randint(1, 3))]
   if rng.random() < 0.15:
     b = [0] * rng.randint(1, 2) + b      # a pure delay in front
+  if frac and rng.random() < 0.5:
+    # exact rational (non-integer) coefficients, incl. the leading denominator
+    # coefficient (the gain every output is divided by)
+    b = [v * rng.choice(FRACS) if v and rng.random() < 0.6 else v for v in b]
+    a = [v * rng.choice(FRACS) if v and rng.random() < 0.6 else v for v in a]
+    if rng.random() < 0.6:
+      a[0] = rng.choice([Fraction(3, 2), Fraction(-1, 2), Fraction(1, 4),
+                         Fraction(5, 4), Fraction(-3, 4), Fraction(1, 2)])
   return (b, a)
 
 
@@ -48,7 +64,9 @@ def cases(ctx):
     yield ("threads", rng.getrandbits(32), ctx.pick(4, 6), ctx.pick(12, 30))
   for _ in ctx.loop(1500, 80000):
     # equality pairs
-    f = rfilt(rng)
+    form = rng.choice(["lists", "expr", "dicts", "float", "linear"])
+    fr = form != "float" and rng.random() < 0.4
+    f = rfilt(rng, frac=fr)
     r = rng.random()
     if r < 0.25:
       g, how = f, "same"
@@ -64,9 +82,8 @@ def cases(ctx):
         a = a + [rng.choice([1, -1, 3])]
       g, how = (f[0], a), "den-only"
     else:
-      g, how = rfilt(rng), "other"
-    yield ("eq", f, g, how, rng.choice(["lists", "expr", "dicts", "float",
-                                        "linear"]))
+      g, how = rfilt(rng, frac=fr), "other"
+    yield ("eq", f, g, how, form)
   for _ in ctx.loop(400, 20000):
     # linearize: dyadic fractional delays
     terms = [(rng.randint(0, 5) + rng.choice([0, 0.5, 0.25, 0.75, 0.125]),
@@ -74,10 +91,14 @@ def cases(ctx):
              for _ in range(rng.randint(1, 4))]
     yield ("linearize", terms)
   for _ in ctx.loop(1000, 160000):
-    f = rfilt(rng)
-    g = rfilt(rng, share_den=f[1] if rng.random() < 0.3 else None)
-    h = rfilt(rng, share_den=g[1] if rng.random() < 0.2 else None)
-    yield ("alg", f, g, h, rscalar(rng), rng.randint(0, 4), rng.randint(1, 7),
+    fr = rng.random() < 0.4
+    f = rfilt(rng, frac=fr)
+    g = rfilt(rng, share_den=f[1] if rng.random() < 0.3 else None, frac=fr)
+    h = rfilt(rng, share_den=g[1] if rng.random() < 0.2 else None, frac=fr)
+    c = rscalar(rng)
+    while fr and isinstance(c, float):    # float x Fraction is a rounded float
+      c = rscalar(rng)
+    yield ("alg", f, g, h, c, rng.randint(0, 4), rng.randint(1, 7),
            rng.randint(1, 5))
 
 
@@ -127,7 +148,11 @@ def run_filter(filt, x):
     return ("exc", "ValueError")
 
 
+FRACTIONAL_CASE = [False]
+
+
 def compare_out(ctx, case, what, got, want, exact=True):
+  tol = 1e-12
   if len(got) != len(want):
     ctx.violation(what + "/wrong-length", case, got=len(got), want=len(want))
     return False
@@ -136,8 +161,8 @@ def compare_out(ctx, case, what, got, want, exact=True):
     if exact:
       ok = gl == wl
     else:
-      ok, worst = lin_close(gl, wl, 1e-12)
-      ctx.err("inexact-coefficient-forms", worst, 1e-12)
+      ok, worst = lin_close(gl, wl, tol)
+      ctx.err("inexact-coefficient-forms", worst, tol)
     if not ok:
       ctx.violation(what + "/wrong-output", case, index=i, got=repr(gl),
                     want=repr(wl))
@@ -187,6 +212,7 @@ def run_threads(ctx, case):
   import sys
   import threading
   _, seed, nthreads, rounds = case
+  FRACTIONAL_CASE[0] = False
   problems = []
   old = sys.getswitchinterval()
   sys.setswitchinterval(1e-6)
@@ -310,6 +336,13 @@ def run_alg(ctx, case):
   mf, mg, mh = model(fs), model(gs), model(hs)
   mc = RF.const(c)
   x = syms("x", xlen)
+  FRACTIONAL_CASE[0] = any(isinstance(v, Fraction) for spec in (fs, gs, hs)
+                           for part in spec for v in part)
+  if FRACTIONAL_CASE[0]:
+    ctx.count("fraction-coefficient-case")
+    if any(isinstance(s_[1][0], Fraction) and s_[1][0].denominator != 1
+           for s_ in (fs, gs, hs)):
+      ctx.count("fraction-leading-denominator-coefficient")
   shared = fs[1] == gs[1]
   if shared:
     ctx.count("shared-denominator-pair")
@@ -332,7 +365,8 @@ def run_alg(ctx, case):
   ok = ok and check_composite(ctx, case, "scalar-rmul", f * c, mc * mf, x, cf)
   ok = ok and check_composite(ctx, case, "scalar-add", f + c, mf + mc, x)
   ok = ok and check_composite(ctx, case, "scalar-rsub", c - f, mc - mf, x)
-  inv_exact = isinstance(c, Fraction) or abs(c) in (1, 2, 4, 8, 0.5)
+  inv_exact = isinstance(c, Fraction) or (not FRACTIONAL_CASE[0] and
+                                          abs(c) in (1, 2, 4, 8, 0.5))
   if inv_exact:   # f / 3 multiplies by the float 1/3: rounding, not algebra
     ok = ok and check_composite(ctx, case, "scalar-div", f / c, mf / mc, x)
   ok = ok and check_composite(ctx, case, "neg", -f, -mf, x,
@@ -382,14 +416,52 @@ def run_alg(ctx, case):
                                 RF({1: Fraction(1)}), x)
   if not ok:
     return True
-  # cascade / parallel containers
-  for what, parts, mdl, pm in [
+  # cascade / parallel containers; the "-mutated" entries change a container
+  # IN PLACE (it is a list) after its polynomials and output were used once:
+  # it must then be the cascade / bank of its current parts
+  mods = {"c": CascadeFilter, "p": ParallelFilter}
+  live = {}
+  spec_of = {"f": (fs, mf), "g": (gs, mg), "h": (hs, mh)}
+  mutation = ["append", "setitem", "delitem", "insert", "iadd", "pop",
+              "extend"][(n + xlen + k) % 7]
+  after = {"append": "fgh", "setitem": "hg", "delitem": "g", "insert": "hfg",
+           "iadd": "fgh", "pop": "f", "extend": "fghf"}[mutation]
+  plan = [
       ("cascade2", [fs, gs], mf * mg, "c"), ("parallel2", [fs, gs], mf + mg, "p"),
       ("cascade3", [fs, gs, hs], mf * mg * mh, "c"),
       ("parallel3", [fs, gs, hs], mf + mg + mh, "p"),
-      ("cascade1", [hs], mh, "c"), ("parallel1", [hs], mh, "p")]:
-    cls = CascadeFilter if pm == "c" else ParallelFilter
-    cont = cls(*[mk(p) for p in parts])
+      ("cascade1", [hs], mh, "c"), ("parallel1", [hs], mh, "p")]
+  for pm, op in (("c", operator.mul), ("p", operator.add)):
+    plan.append(("%s-mutated-%s" % ("cascade" if pm == "c" else "parallel",
+                                    mutation),
+                 [spec_of[ch][0] for ch in after],
+                 functools.reduce(op, [spec_of[ch][1] for ch in after]), pm))
+  for what, parts, mdl, pm in plan:
+    cls = mods[pm]
+    if "-mutated-" in what:
+      cont = live[pm]          # the 2-part container used above
+      if mutation == "append":
+        cont.append(mk(hs))
+      elif mutation == "setitem":
+        cont[0] = mk(hs)
+      elif mutation == "delitem":
+        del cont[0]
+      elif mutation == "insert":
+        cont.insert(0, mk(hs))
+      elif mutation == "iadd":
+        cont += [mk(hs)]
+      elif mutation == "pop":
+        cont.pop()
+      else:
+        cont.extend([mk(hs), mk(fs)])
+      if type(cont) is not cls:
+        ctx.violation(what + "/container-type-changed", case,
+                      got=type(cont).__name__)
+        return True
+    else:
+      cont = cls(*[mk(p) for p in parts])
+      if what in ("cascade2", "parallel2"):
+        live[pm] = cont
     res = cont(list(x), zero=0)
     if not isinstance(res, Stream):
       ctx.violation(what + "/result-not-a-Stream", case)
@@ -397,7 +469,8 @@ def run_alg(ctx, case):
     got = list(itertools.islice(iter(res), xlen + 3))
     num, den = mdl.normalised()
     want = recursion(num, den, x, None, 0)
-    if not compare_out(ctx, case, what, got, want):
+    if not compare_out(ctx, case, what, got, want,
+                       all(coeffs_exact(mk(p)) for p in parts)):
       return True
     ctx.count("container:" + what)
     try:
@@ -465,7 +538,7 @@ def run_alg(ctx, case):
       num, den = mdl.normalised()
       if out[0] != "out" or not compare_out(
           ctx, case, "operand-after-reuse", out[1],
-          recursion(num, den, x, None, 0)):
+          recursion(num, den, x, None, 0), coeffs_exact(obj)):
         if out[0] != "out":
           ctx.violation("operand-after-reuse/refuses-to-run", case,
                         operand=name, got=out)
@@ -475,6 +548,8 @@ def run_alg(ctx, case):
 
 def finish(ctx):
   ctx.need("operand-integrity-checked", 300)
+  ctx.need("fraction-coefficient-case", 100)
+  ctx.need("fraction-leading-denominator-coefficient", 50)
   ctx.need("concurrent-law-evaluations", 200)
   for k in ["rational-function-compared", "output-laws-compared",
             "noncausal-composite", "shared-denominator-pair",
@@ -488,3 +563,6 @@ def finish(ctx):
   for c in ["cascade1", "cascade2", "cascade3", "parallel1", "parallel2",
             "parallel3"]:
     ctx.need("container:" + c, 50)
+  for m in ["append", "setitem", "delitem", "insert", "iadd", "pop", "extend"]:
+    ctx.need("container:cascade-mutated-" + m, 10)
+    ctx.need("container:parallel-mutated-" + m, 10)
